@@ -12,16 +12,25 @@ CLAIM_TEXT = ("Theorems (coq/Props/C01.v, no axioms): decode(encode s) = s for E
               "round-trip (C01_*_params_roundtrip); the SIP URI printer / parser round-trips for every user, password-class password, "
               "accepted host, port and parameter / header list, and a print context is the printer applied to the Table 1 projection "
               "(C01_uri_roundtrip, C01_context_projection); classes, method names and escaping forms are regenerated from the source "
-              "(C01_source_forms). Correspondence: URIs over reserved characters in every position x six print contexts (printed bytes and "
+              "(C01_source_forms); WHOLE MESSAGES (Model/C01m.v): for every start line without CR/LF, every Headers multimap (names = table "
+              "rows or unknown tokens, values without CR/LF and leading blank, UTF-8) and every body, the bytes Endpoint::send_outgoing_* writes "
+              "parse back - through the PullParser / Line::parse / Content-Length model shared with C03 - to the same start line, the same "
+              "Headers value (Content-Length replaced by the body size) and the same body (C01_message_roundtrip), per name the stored ordered "
+              "value list (C01_message_values*), header-name equality is equality of a canonical key over the regenerated 61-row name table "
+              "(C01_header_name_*). Correspondence: URIs over reserved characters in every position x six print contexts (printed bytes and "
               "parsed fields = the extracted model's, reprint = print), methods +- one character and case flips, From/To/Contact/Route "
-              "with display names (quotes, backslashes, blanks, empty) and tags, numeric headers at their bounds, whole messages with "
-              "repeated header names, each built through the public API, printed, parsed by the library and compared field-wise.")
+              "with display names (quotes, backslashes, blanks, empty) and tags, numeric headers at their bounds, each built through the public "
+              "API, printed, parsed by the library and compared field-wise; whole messages (compact and mixed-case spellings, unknown names, "
+              "repeated names, an application Content-Length, bodies with CRLFCRLF and header-like text) sent through the real "
+              "Endpoint::send_outgoing_request / _response over a mock transport: wire bytes, parsed header list and body = the extracted model's.")
 CLAIM_NOTE = ("PARTIAL: Host::parse (names / IPv4 / IPv6 text) is a validity predicate in the model; name-addr (display-name quoting), the "
-              "typed headers (Via, CSeq, RAck, timers, auth ...) and whole messages are decided by the differential runs only; passwords are "
+              "typed headers (Via, CSeq, RAck, timers, auth ...) are decided by the differential runs only; header values that begin with white "
+              "space are outside the message theorem (the parser strips it, RFC 3261 7.3.1 makes it insignificant); passwords are "
               "restricted to the password character class (they are printed raw, outside what the property names).")
 TRUSTED = [
     "Coq 8.16.1 kernel; no axioms",
-    "hand-written model coq/Model/C01.v; character classes and method names regenerated from sip-types by tools/translate_tables.py",
+    "hand-written models coq/Model/C01.v, coq/Model/C01m.v (+ Model/C03.v for the parser side); character classes, method names, the header "
+    "name table and the Content-Length replacement form regenerated from the source by tools/translate_tables.py",
     "extraction (ExtrOcamlBasic only) + ocaml/util.ml + ocaml/c01_driver.ml",
     "Rust harness harness/src/c01.rs (values built through the public constructors / fields, field-wise dump)",
 ]
@@ -29,8 +38,8 @@ ASSUMPTIONS = ["Host::parse accepts exactly the host text it prints in front of 
 RULE = ("URIs: user / parameter names / values over strings with every reserved character ('%', '%41', '@', ':', ';', '?', '&', '=', '\"', "
         "space, 2/3/4-byte UTF-8), hosts as names / IPv4 / IPv6, ports 1/5060/65535, the Table 1 parameter names, all six print "
         "contexts; name-addr headers with display names and tags; every method name +- one character and case flips; numeric "
-        "headers at 0 / 1 / max; whole messages with repeated header names")
-PARTIAL = ["Host::parse, name-addr / display names, typed headers and whole messages: exercised field-wise, not proved"]
+        "headers at 0 / 1 / max; whole messages with repeated / compact / mixed-case / unknown header names, bodies of 0..340 bytes")
+PARTIAL = ["Host::parse, name-addr / display names and the typed headers: exercised field-wise, not proved"]
 
 METHODS = ["INVITE", "ACK", "CANCEL", "BYE", "REGISTER", "MESSAGE", "UPDATE", "PRACK", "OPTIONS", "SUBSCRIBE", "NOTIFY", "PUBLISH", "INFO", "REFER"]
 CTXS = ["none", "requri", "fromto", "contact", "contactreg", "routing"]
@@ -173,19 +182,23 @@ def gen_cases(rng, tier):
             if kind == "se":
                 nums.append(rng.choice(["uac", "uas", "-"]))
             cases.append(["h%d" % j, "c01", "num", kind, ",".join(nums)]); j += 1
-    # whole messages: start line, ordered header values per name, body
+    # whole messages: start line, ordered header values per name, body (through Endpoint::send_outgoing_*)
+    names = ["Via", "From", "To", "Call-ID", "CSeq", "Route", "Record-Route", "X-Custom", "Subject", "Contact", "Allow", "Supported",
+             "v", "f", "t", "i", "m", "k", "l", "L", "s", "c", "e", "u", "o", "r", "b", "x", "VIA", "call-id", "CONTENT-LENGTH", "content-length",
+             "Content-Type", "x-custom", "X-CUSTOM", "P-Asserted-Identity", "Session-Expires", "Min-SE", "RSeq", "RAck", "a.b!%*_`'~+-1", "l2", "LL"]
+    values = ["a", "1 INVITE", "<sip:a@b>;tag=1", "SIP/2.0/UDP h;branch=z9hG4bK1", "x y z", "<sip:p1;lr>", "<sip:p2;lr>", "text with ü", "v1", "v2",
+              "100rel", "timer", "", "trailing space ", "a: b", ":", "tab\tinside", "\"quoted, comma\"", "名前", "0", "999", "%41"]
     for i in range(150 if tier == "quick" else 3000):
         if rng.random() < 0.5:
             line = "%s sip:bob@example.org SIP/2.0" % rng.choice(METHODS + ["FOO", "INVITEX"])
         else:
             line = "SIP/2.0 %d %s" % (rng.choice([100, 180, 200, 404, 486, 600, 699]), rng.choice(["OK", "Not Found", "Busy Here", "x"]))
         hs = []
-        names = ["Via", "From", "To", "Call-ID", "CSeq", "Route", "Record-Route", "X-Custom", "Subject", "Contact", "Allow", "Supported"]
-        for _ in range(rng.randrange(1, 9)):
-            nm = rng.choice(names)
-            v = rng.choice(["a", "1 INVITE", "<sip:a@b>;tag=1", "SIP/2.0/UDP h;branch=z9hG4bK1", "x y z", "<sip:p1;lr>", "<sip:p2;lr>", "text with ü", "v1", "v2", "100rel", "timer"])
-            hs.append((nm, v))
-        body = bytes(rng.choice(b"abc\r\n\x00\xff ") for _ in range(rng.randrange(0, 40)))
+        for _ in range(rng.randrange(0, 9)):
+            hs.append((rng.choice(names), rng.choice(values)))
+        body = bytes(rng.choice(b"abc\r\n\x00\xff :") for _ in range(rng.choice([0, 0, 1, 7, 40, 300])))
+        if i % 17 == 0:
+            body = b"v=0\r\n\r\nContent-Length: 5\r\n\r\n" + body
         cases.append(["g%d" % i, "c01", "msg", "|".join([hx(line), ";".join("%s=%s" % (hx(a), hx(b)) for a, b in hs), body.hex()])])
     return cases
 
@@ -235,36 +248,52 @@ def oracle(case, impl):
             out.append("header %s(%s) printed as %r parses back to %s" % (case[3], case[4], bytes.fromhex(m.group(1)).decode("utf-8", "replace"), m.group(2)))
     elif kind == "msg":
         f = case[3].split("|")
-        if impl == "UNPARSED":
-            return ["the printed message is rejected by the library's own parser"]
-        m = re.match(r"L=(\S*)\tH=(\S*)\tB=(\S*)", impl)
+        if "UNPARSED" in impl:
+            return ["the message the library put on the wire is rejected by its own parser"]
+        m = re.match(r"T=(\S*)\tL=(\S*)\tH=(\S*)\tB=(\S*)", impl)
         if not m:
             return ["no observation: " + impl[:200]]
-        line = bytes.fromhex(f[0]).decode()
-        if bytes.fromhex(m.group(1)).decode() != line:
-            out.append("start line %r comes back as %r" % (line, bytes.fromhex(m.group(1)).decode()))
-        if m.group(3) != f[2]:
-            out.append("body differs after print -> parse")
+        line = unhx_py(f[0])
+        if unhx_py(m.group(2)) != line:
+            out.append("start line %r comes back as %r" % (line, unhx_py(m.group(2))))
+        body = f[2] if len(f) > 2 else ""
+        if m.group(4) != body:
+            out.append("body differs after print -> parse (%d bytes written, %d read)" % (len(body) // 2, len(m.group(4)) // 2))
+        # per header name (the table's spellings folded together), the ordered list of values
         exp = collections.OrderedDict()
         for e in [x for x in f[1].split(";") if x]:
-            a, b = e.split("=")
-            exp.setdefault(bytes.fromhex(a).decode().lower(), []).append(b)
+            a, _, b = e.partition("=")
+            exp.setdefault(_canon(unhx_py(a)), []).append(unhx_py(b))
+        exp.pop("content-length", None)
         got = collections.OrderedDict()
-        for e in [x for x in m.group(2).split(";") if x]:
-            a, b = e.split("=")
-            got.setdefault(bytes.fromhex(a).decode().lower(), []).append(b)
-        for nm in exp:
-            if got.get(_canon(nm)) != exp[nm] and got.get(nm) != exp[nm]:
-                out.append("header %s: values %s come back as %s" % (nm, exp[nm], got.get(nm) or got.get(_canon(nm))))
-                break
+        for e in [x for x in m.group(3).split(";") if x]:
+            a, _, b = e.partition("=")
+            got.setdefault(_canon(unhx_py(a)), []).append(unhx_py(b))
+        cl = got.pop("content-length", None)
+        if cl != [str(len(body) // 2)]:
+            out.append("Content-Length values %r, body has %d bytes" % (cl, len(body) // 2))
+        if list(exp.items()) != list(got.items()):
+            for nm in exp:
+                if got.get(nm) != exp[nm]:
+                    out.append("header %s: values %r come back as %r" % (nm, exp[nm], got.get(nm)))
+                    break
+            else:
+                out.append("header names / order differ: wrote %r, read %r" % (list(exp), list(got)))
     return out[:2]
 
 
-_COMPACT = {"via": "via", "from": "from", "to": "to", "call-id": "call-id", "contact": "contact"}
+# RFC 3261 section 7.3.3 / 20 compact forms (and RFC 3262 / 3265 / 3515 / 4028 / 6665 additions), written from the RFCs
+_COMPACT = {"v": "via", "f": "from", "t": "to", "i": "call-id", "m": "contact", "l": "content-length", "c": "content-type", "e": "content-encoding",
+            "s": "subject", "k": "supported", "u": "allow-events", "o": "event", "r": "refer-to", "b": "referred-by", "x": "session-expires"}
 
 
 def _canon(nm):
+    nm = nm.lower()
     return _COMPACT.get(nm, nm)
+
+
+def unhx_py(h):
+    return "" if h in ("''", "") else bytes.fromhex(h).decode("utf-8", "replace")
 
 
 def normalize_impl(case, s):
@@ -272,7 +301,7 @@ def normalize_impl(case, s):
 
 
 def accepts(case, impl, model):
-    if case[2] in ("uri", "meth"):
+    if case[2] in ("uri", "meth", "msg"):
         return impl == model
     return True
 
